@@ -140,7 +140,5 @@ Lemma pipe_eq_file_current_lemma : forall parse_ok exits parse_file_ok cs,
   visible (pipe_events parse_ok exits cs) = file_events exits parse_file_ok (List.concat cs).
 Proof.
   intros p e pf cs H1 H2 H3 H4.
-  apply pipe_visible_eq_file; auto.
-  - left. reflexivity.
-  - exact (lex_echo_from_fixed eq_refl _ LInit).
+  exact (pipe_visible_eq_file p e pf cs H1 H2 (or_introl eq_refl) (lex_echo_from_fixed eq_refl _ LInit) H3 H4).
 Qed.
